@@ -36,7 +36,10 @@ Lemma diamond_reaches_start :
   exists s1 s2 s3, run diamond (init diamond) diamond_prefix = Some s1 /\
                 step diamond s1 (WExecStart 3) = Some s2 /\ run diamond s2 diamond_rest = Some s3 /\
                 pc s3 = LDone /\ deps (steps diamond 3) = [1; 2].
-Proof. do 3 eexists. repeat split; vm_compute; reflexivity. Qed.
+Proof.
+  do 3 eexists. split; [vm_compute; reflexivity|]. split; [vm_compute; reflexivity|].
+  split; [vm_compute; reflexivity|]. split; vm_compute; reflexivity.
+Qed.
 
 (* the state in which b and c execute together: the bound of C15 is attained *)
 Definition diamond_two : list label := launch 0 ++ [WExecEnd 0 true; WAfter 0 false; WFinish 0] ++ launch 1 ++ launch 2.
@@ -44,4 +47,7 @@ Lemma diamond_two_running :
   exists s, run diamond (init diamond) diamond_two = Some s /\ maxActive diamond = 2 /\
             exec_count diamond s = 2 /\ running_count diamond s = 2 /\
             step diamond s (LCommit 3) = None.
-Proof. eexists. repeat split; vm_compute; reflexivity. Qed.
+Proof.
+  eexists. split; [vm_compute; reflexivity|]. split; [reflexivity|]. split; [vm_compute; reflexivity|].
+  split; vm_compute; reflexivity.
+Qed.
